@@ -8,6 +8,9 @@ has its alias introduced by an enclosing FROM, every unqualified FROM table is a
 table defined earlier, no compiler placeholder leaks.  On SQLite the SQL is also
 executed (the scoper is calibrated in both directions).
 """
+import copy
+import json
+import os
 import re
 import sqlite3
 import traceback
@@ -43,7 +46,7 @@ OPTS = dict(p_colnames=0.0, p_composite_col=0.3)
 # Known finding D1 (Databricks.Subscript arity): the generator keeps (predicate,
 # databricks) pairs whose definition accesses a record field away from the compiler
 # when this flag is set; the exclusions are counted in evidence.
-EXCLUDE_D1 = True
+EXCLUDE_D1 = not os.environ.get('VERIF_C09_NO_EXCLUDE')    # env var: re-derive D1
 D1_BUCKET = ('internal:TypeError@compiler/expr_translate.py:Subscript:'
              'Databricks.Subscript() takes n positional arguments but n were given')
 
@@ -122,33 +125,22 @@ def sqlite_try(pr, main_sql=None):
         con.close()
 
 
-def check_one(prog, pred, engine, text=None, rules=None):
-    """-> dict(outcome, failures [(bucket, detail)], labels, stats)."""
-    text = text or engine_text(prog, engine)
-    res = {'outcome': None, 'failures': [], 'labels': [], 'stats': None}
-    hdr = '--- engine %s predicate %s\n%s' % (engine, pred, text)
-    try:
-        if rules is None:
-            rules = drive.parse_rules(text)
-        pr, sql = drive.compile_rules(rules, pred)
-    except drive.DIAGNOSTICS as e:
-        res['outcome'] = 'diagnostic'
-        res['labels'].append('diag:%s:%s' % (type(e).__name__,
-                                             common.msg_class(common.first_line(e))))
-        return res
-    except RecursionError as e:
-        res['outcome'] = 'internal'
-        res['failures'].append(('internal:RecursionError', traceback.format_exc()[-1500:]
-                                + '\n' + hdr))
-        return res
-    except Exception as e:
-        res['outcome'] = 'internal'
-        b = 'internal:%s:%s' % (drive.exc_frame(e), norm_msg(e))
-        res['failures'].append((b, 'compilation ended with an internal error, not a '
-                                   'diagnostic:\n%s\n%s' % (
-                                       traceback.format_exc()[-1800:], hdr)))
-        return res
-    res['outcome'] = 'sql'
+def classify_exc(e, hdr):
+    """-> (outcome, failures, labels) for an exception that ended a compilation."""
+    if isinstance(e, drive.DIAGNOSTICS):
+        return 'diagnostic', [], ['diag:%s:%s' % (
+            type(e).__name__, common.msg_class(common.first_line(e)))]
+    tb = ''.join(traceback.format_exception(type(e), e, e.__traceback__))[-1800:]
+    if isinstance(e, RecursionError):
+        return 'internal', [('internal:RecursionError', tb + '\n' + hdr)], []
+    b = 'internal:%s:%s' % (drive.exc_frame(e), norm_msg(e))
+    return 'internal', [(b, 'compilation ended with an internal error, not a '
+                            'diagnostic:\n%s\n%s' % (tb, hdr))], []
+
+
+def analyse(pr, engine, hdr):
+    """Scoper (+ SQLite calibration) on the SQL left in pr.execution."""
+    res = {'outcome': 'sql', 'failures': [], 'labels': [], 'stats': None}
     tot = dict(from_aliases=0, subqueries=0, with_tables=0, selects=0, alias_refs=0)
     ok = True
     main_sc = None
@@ -202,6 +194,80 @@ def check_one(prog, pred, engine, text=None, rules=None):
     return res
 
 
+def check_one(prog, pred, engine, text=None):
+    """Fresh compilation of one predicate, the path of `logica.py <file> print <pred>`.
+    -> dict(outcome, failures [(bucket, detail)], labels, stats)."""
+    text = text or engine_text(prog, engine)
+    hdr = '--- engine %s predicate %s\n%s' % (engine, pred, text)
+    try:
+        pr, sql = drive.compile_program(text, pred)
+    except Exception as e:
+        o, f, l = classify_exc(e, hdr)
+        return {'outcome': o, 'failures': f, 'labels': l, 'stats': None}
+    return analyse(pr, engine, hdr)
+
+
+class Shared(object):
+    """One parse and one LogicaProgram per (program, engine), as `logica.py <file>
+    print p1,p2,...` does; anything that fails here is re-examined by check_one()."""
+
+    def __init__(self):
+        self.engine_rule = {}
+        self.verified = False
+
+    def rules_for(self, prog, engine):
+        base_text = engine_text(prog, ENGINES[0])
+        if getattr(self, '_base_text', None) != base_text:
+            self._base_text = base_text
+            self._base = drive.parse_rules(base_text)
+        if engine == ENGINES[0]:
+            return copy.deepcopy(self._base)
+        if engine not in self.engine_rule:
+            self.engine_rule[engine] = drive.parse_rules('@Engine("%s");\n' % engine)
+        rules = copy.deepcopy(self.engine_rule[engine]) + copy.deepcopy(self._base[1:])
+        if not self.verified:
+            # the splice must be what the parser gives for the whole text
+            full = drive.parse_rules(engine_text(prog, engine))
+            strip = lambda rs: json.dumps(rs, sort_keys=True, default=str)
+            if strip(full) != strip(rules):
+                raise AssertionError('spliced parse differs from the real parse')
+            if engine == ENGINES[-1]:
+                self.verified = True
+        return rules
+
+    def compile_all(self, prog, engine, preds):
+        """-> {pred: result dict}"""
+        out = {}
+        text = engine_text(prog, engine)
+        try:
+            rules = self.rules_for(prog, engine)
+            with drive.quiet():
+                lp = drive.universe.LogicaProgram(rules, user_flags={})
+        except AssertionError:
+            raise
+        except Exception:
+            for p in preds:
+                out[p] = check_one(prog, p, engine, text)
+            return out
+        for p in preds:
+            hdr = '--- engine %s predicate %s\n%s' % (engine, p, text)
+            try:
+                with drive.quiet():
+                    lp.FormattedPredicateSql(p)
+            except Exception as e:
+                o, f, l = classify_exc(e, hdr)
+                r = {'outcome': o, 'failures': f, 'labels': l, 'stats': None}
+            else:
+                r = analyse(lp, engine, hdr)
+            if r['failures']:
+                fresh = check_one(prog, p, engine, text)
+                if not fresh['failures']:
+                    fresh['labels'].append('failure_only_with_shared_program')
+                r = fresh
+            out[p] = r
+        return out
+
+
 def nontrivial(stats):
     return bool(stats) and stats['from_aliases'] >= 2 and \
         (stats['subqueries'] + stats['with_tables']) >= 1
@@ -209,6 +275,7 @@ def nontrivial(stats):
 
 def shard(ctx, col):
     drive.enable_library_cache()
+    shared = Shared()
 
     def one(rng):
         prog = gen.gen_program(rng, **OPTS)
@@ -217,20 +284,20 @@ def shard(ctx, col):
         fa = {p: uses_field_access(prog, p) for p in prog['preds']}
         for engine in ENGINES:
             text = engine_text(prog, engine)
-            try:
-                rules = drive.parse_rules(text)
-            except Exception:
-                rules = None
             nt = False
             labels = set()
             sample = None
+            todo = []
             for p in prog['preds']:
                 if fa[p]:
                     labels.add('feat:record_field_access')
                 if EXCLUDE_D1 and engine == 'databricks' and fa[p]:
                     col.exclude('D1_databricks_record_field_access')
                     continue
-                r = check_one(prog, p, engine, text, rules)
+                todo.append(p)
+            results = shared.compile_all(prog, engine, todo)
+            for p in todo:
+                r = results[p]
                 col.label('outcome:%s:%s' % (engine, 'violation' if r['failures']
                                              else r['outcome']))
                 for l in r['labels']:
